@@ -137,6 +137,16 @@ def run(ctx):
                 c = A.neg(A.neg(c))
             if t == gen.BOOL:
                 e = ('bin', '<', ('bin', '+', tg.num(1), c), tg.num(1)) if rng.random() < 0.6 else ('bin', gen.pick(rng, ('>', '<=', '=')), tg.num(1), c)
+        if n % 5 == 0:
+            # legal but non-canonical spellings of number literals, wherever they occur (indices included)
+            respell = {'0': ('00', '0.0', '0e0'), '1': ('01', '1.0', '1e0', '1.'), '2': ('002', '2.0', '2.', '0.2e1'),
+                       '3': ('03', '3.0'), '10': ('1e1', '10.0', '010')}
+
+            def odd(x):
+                if x[0] == 'lit' and x[1] == 'num' and x[2] in respell and rng.random() < 0.5:
+                    return ('lit', 'num', gen.pick(rng, respell[x[2]]))
+                return x
+            e = A.subst(e, odd)
         if not A.renderable(e):
             ctx.skip('not-renderable')
             continue
